@@ -238,6 +238,26 @@ def r5_ws_close_reasons(ctx):
         R.check(any(b.dominates(t, bi) for t in right_t), "C11.R5", "try_recv:stopped-only-when-stop-future-completed", "Receive::Stopped is produced only when the stop future completed", "ws::try_recv reports `Stopped` on an arm where the server was not stopped (e.g. the missed-pings close): the connection task then waits for all in-flight calls before it ends, so a connection the server itself closed keeps its slot and new clients get 429", "%s:%d" % (b.file, st["sp"][0]))
 
 
+HYPER_VETTED = {"new", "http2", "keep_alive_interval", "keep_alive_timeout", "serve_connection_with_upgrades", "graceful_shutdown", "serve_connection", "into_owned"}
+
+
+def r6_vetted_transport_options(ctx):
+    """a finished HTTP connection frees its slot because hyper drops the service future when the peer goes away; that
+    behaviour belongs to hyper's connection options. The options the server sets on hyper's connection builder are a
+    vetted, closed list (HTTP/2 keep-alive only): an option that changes when hyper notices a vanished peer
+    (`http1().half_close(true)`: EOF is no longer watched while a request is in flight) makes an aborted request keep its
+    slot for as long as its handler runs."""
+    F, R = ctx.F, ctx.R
+    n = 0
+    for c in F.all_calls(r"^hyper_util::server::conn::auto::|^hyper::server::conn::"):
+        if c.body.crate != SERVER or is_test_body(c.body):
+            continue
+        n += 1
+        opt = (c.name() or "").split("::")[-1]
+        R.check(opt in HYPER_VETTED, "C11.R6", "hyper-option:%s:%s" % (fkey(c.body), opt), "hyper connection option `%s` is on the vetted list" % opt, "%s sets the hyper connection option `%s`, which is not on the vetted list %s: options that change how hyper detects a closed peer or keeps a connection open decide when a connection's slot is freed" % (short(c.body.path), opt, sorted(HYPER_VETTED)), where(c))
+    R.floor("C11.R6", n, 8, "hyper connection-builder calls in the server")
+
+
 def rcfg_config_verbatim(ctx):
     """the configured `max_connections` reaches the ServerConfig unchanged (setter stores its argument, build()/Clone copy it)"""
     from .common import config_field_integrity
@@ -251,7 +271,7 @@ def rstatus_http_status_table(ctx):
     http_status_table(ctx, "C11.STATUS", ('too_many_requests',))
 
 
-RULES = [r1_gate, r2_hold_until_done, r3_no_forget, r4_limit_provenance, r5_ws_close_reasons, rcfg_config_verbatim, rstatus_http_status_table]
+RULES = [r1_gate, r2_hold_until_done, r3_no_forget, r4_limit_provenance, r5_ws_close_reasons, r6_vetted_transport_options, rcfg_config_verbatim, rstatus_http_status_table]
 
 LEVEL_TEXT = (
     "Structural necessary conditions of the connection cap decided from the type-checked program: the acquire arm "
